@@ -29,6 +29,8 @@ func init() {
 func runC14(c *core.Ctx) {
 	c14ReadOnly(c)
 	c14Immutable(c)
+	wrapperHoldsItsRegistries(c, "C14.R0", "ocifilter", "ReadOnly")
+	wrapperHoldsItsRegistries(c, "C14.R0", "ocifilter", "Immutable")
 	c14ImmutableTags(c)
 	c14TypedInterpretation(c)
 	// R5: the descriptor iterators the reachability walk is built from obey the
